@@ -102,7 +102,7 @@ theorem strip_kept {s s' : St} {l : Label} (hl : l.erased = false) (hs : step s 
     rw [step_of_w hx']
     have hp' : (strip s).ws[i]? = some p := hp
     have hn' : wNext (strip s).g a p (tsAt (strip s) i == .canceled) = some q := hn
-    have hg : (a = .lockT → (strip s).thd = .none) ∧ (a = .lock → (strip s).own = .none) := by
+    have hg : (a.locksT = true → (strip s).thd = .none) ∧ (a = .lock → (strip s).own = .none) := by
       refine ⟨fun ha => ?_, hgO⟩
       show (if s.thd = .s then Own.none else s.thd) = .none
       rw [hgT ha]; rfl
